@@ -99,7 +99,7 @@ class JaxMod(PyMod):
         import jax.numpy as jnp
 
         s, p, m = self.arrays(pt, missing)
-        vals = {"states": jnp.asarray(s), "parameters": jnp.asarray(p), "t": float(pt["t"]), "dt": None if dt is None else float(dt), "missing_variables": None if m is None else jnp.asarray(m)}
+        vals = {"states": jnp.asarray(s), "parameters": jnp.asarray(p), "t": jnp.float64(pt["t"]), "dt": None if dt is None else jnp.float64(dt), "missing_variables": None if m is None else jnp.asarray(m)}
         args = [vals[n] for n in self.argnames(fname)]
         with warnings.catch_warnings():
             warnings.simplefilter("ignore")
